@@ -203,4 +203,41 @@ def r17_3(ctx: Ctx) -> RuleResult:
     return rr
 
 
-RULES = [r17_1, r17_2, r17_3]
+def r17_4(ctx: Ctx) -> RuleResult:
+    """A sub-query of a filter is printed as its own identifier followed by the text of its path *without that
+    path's leading root identifier*.  What is cut off must have the length of the root identifier - the thing
+    `JSONPath.__str__` put there - not of the identifier that replaces it: the two spellings may differ in length."""
+    rr = RuleResult("R17.4", "filter sub-queries replace exactly the root identifier of their path's text", floor=2)
+    for cname in ("SelfPath", "FilterContextPath"):
+        cls = ctx.repo.require_class(f"jsonpath.filter.{cname}")
+        fn = ctx.repo.find_method(cls, "__str__")
+        if fn is None:
+            raise AnalysisError(f"{cname}.__str__ not found")
+        cuts = []
+        for n in ast.walk(fn.node):
+            if isinstance(n, ast.Subscript) and isinstance(n.slice, ast.Slice) and n.slice.upper is None and n.slice.lower is not None \
+                    and isinstance(n.value, ast.Call) and callee_name(n.value) == "str" and n.value.args and path_of(n.value.args[0]) == "self.path":
+                cuts.append(n)
+        prefix_calls = [c for c in calls(fn.node, "removeprefix")]
+        if not cuts and not prefix_calls:
+            raise AnalysisError(f"R17.4: {cname}.__str__ does not cut the root identifier off str(self.path)")
+        for n in cuts:
+            lo = n.slice.lower  # type: ignore[union-attr]
+            what = path_of(lo.args[0]) if isinstance(lo, ast.Call) and callee_name(lo) == "len" and lo.args else None
+            if what is not None and what.endswith(".root_token") and ".env" in what:
+                rr.ok(fn.loc(n), f"{cname}.__str__: cuts len({what}) characters off str(self.path)")
+            else:
+                rr.bad(fn, n, f"{cname}.__str__ cuts `{short(lo)}` characters off `str(self.path)`, which begins with the "
+                       "environment's root identifier: with identifiers of different lengths the printed sub-query "
+                       "loses or keeps characters and does not parse back", construct=f"{cname}: str(self.path)[{short(lo)}:]")
+        for c in prefix_calls:
+            a0 = path_of(c.args[0]) if c.args else None
+            if a0 and a0.endswith(".root_token"):
+                rr.ok(fn.loc(c), f"{cname}.__str__: removeprefix({a0})")
+            else:
+                rr.bad(fn, c, f"{cname}.__str__ removes `{short(c.args[0]) if c.args else ''}`, not the root identifier",
+                       construct=short(c))
+    return rr
+
+
+RULES = [r17_1, r17_2, r17_3, r17_4]
